@@ -40,6 +40,7 @@ type SymStr struct {
 	Note   string
 	Segs   []Value   // for opaque strings: known segments (string / non-opaque *SymStr) and nil = unknown text
 	LenT   *smt.Term // cached symbolic length of an opaque string
+	MaxUnk int       // upper bound on the total length of the unknown segments (0 = no bound known)
 }
 
 type Struct []Value
